@@ -1019,7 +1019,8 @@ def check(pid, argv=None):
             results = run_workers(run, [dict(omp=rp["omp"], seed=rp["seed"], shard=0, nshards=1, walks=[rp["widx"]], walk_steps=rp["steps"])])
             traces = merge_results(run, results)
             verdicts = validate_traces(run, traces)
-            report_trace_verdicts(run, traces, verdicts, rp["seed"])
+            n = report_trace_verdicts(run, traces, verdicts, rp["seed"])
+            run.cov["traces_validated_against_impl"] += n["calls"]
         run.finish()
     t1 = time.time()
     with ThreadPoolExecutor(max_workers=2) as ex:
